@@ -1201,3 +1201,44 @@ Lemma net_get_spec n ro n' :
   NetInv n -> net_inited n = true -> net_get n = Ok (ro, n') ->
   NetInv n' /\ net_inited n' = true /\ get_rel n n' /\ get_result n n' ro.
 Proof. unfold net_get. apply net_get_loop_spec. Qed.
+
+(* ---------------------------------------------------------------- the answer a poll reports *)
+Lemma netinv_nodup n : NetInv n -> NoDup (map p_fd (fds n)).
+Proof.
+  intros HI. apply NoDup_nth_error. intros i j Hi E. rewrite map_length in Hi.
+  rewrite !nth_error_map in E.
+  destruct (nth_error (fds n) i) as [p|] eqn:Ep; [|apply nth_error_None in Ep; lia].
+  destruct (nth_error (fds n) j) as [q|] eqn:Eq; simpl in E; [|discriminate].
+  inversion E as [Efd].
+  destruct (n_slot_sock n HI i p Ep) as [k1 [A1 B1]]. destruct (n_slot_sock n HI j q Eq) as [k2 [A2 B2]].
+  rewrite Efd in A1. congruence.
+Qed.
+
+Lemma answer_lookup n f p :
+  NetInv n -> slot n f = Some p -> rb_is_none (p_rev p) = false ->
+  lookup_fd f (answer_of (fds n)) = Some (p_rev p).
+Proof.
+  intros HI Hs Hnz. unfold answer_of.
+  set (nz := fun p0 : pollfd => negb (rb_is_none (p_rev p0))).
+  set (L := map (fun p0 => (p_fd p0, p_rev p0)) (filter nz (fds n))).
+  assert (Hnd : NoDup (map fst L)).
+  { unfold L. rewrite map_map. simpl.
+    assert (NoDup (map p_fd (fds n))) by (apply netinv_nodup; exact HI).
+    clear -H. induction (fds n) as [|a l IH]; simpl; [constructor|].
+    inversion H; subst. destruct (nz a); simpl; [|auto]. constructor; [|auto].
+    intros X. apply H2. apply in_map_iff in X. destruct X as [x [E Hx]]. apply filter_In in Hx.
+    apply in_map_iff. exists x. tauto. }
+  rewrite lookup_fd_sort by exact Hnd. apply lookup_fd_in; [exact Hnd|].
+  pose proof (slot_fd n f p HI Hs) as Hfd. destruct (slot_in n f p Hs) as [j Hj].
+  unfold L. apply in_map_iff. exists p. split; [rewrite Hfd; reflexivity|].
+  apply filter_In. split; [eapply nth_error_In; eauto|]. unfold nz. rewrite Hnz. reflexivity.
+Qed.
+
+Lemma rb_dir_nonzero b d : rb_dir b d = true -> rb_is_none b = false.
+Proof. unfold rb_is_none. destruct b as [i o e h]. destruct d; simpl; intros ->; simpl; auto. rewrite orb_true_r. reflexivity. Qed.
+
+Lemma rb_errhup_nonzero b : rb_errhup b = true -> rb_is_none b = false.
+Proof.
+  unfold rb_is_none, rb_errhup. destruct b as [i o e h]. simpl. intros H.
+  apply orb_true_iff in H. destruct H as [-> | ->]; rewrite ?orb_true_r; reflexivity.
+Qed.
